@@ -114,7 +114,9 @@ class OutFile(object):
     def write(self, s):
         self.op("write")
         self.pieces.append(s)
-        return s.length() if isinstance(s, SymStr) else len(s)
+        if isinstance(s, SymStr):
+            return s.length()
+        return len(s) if isinstance(s, str) else 0
 
     def close(self):
         self.op("close")
